@@ -183,8 +183,12 @@ def remove_shims(saved):
         setattr(mod, name, orig)
 
 
+class HarnessTimeout(BaseException):
+    """The implementation kept the (real) CPU busy for too long inside one virtual run."""
+
+
 def run_virtual(main, *, epoch: int = EPOCH_DEFAULT, read_cost_us: int = 1, latency=None,
-                horizon_s: float | None = None, shims: bool = True):
+                horizon_s: float | None = None, shims: bool = True, wall_limit_s: float = 20.0):
     """
     Run coroutine function main(loop) to completion under a fresh virtual loop.
     Returns (result, loop).  The loop is closed; vt_us etc. remain readable.
@@ -194,10 +198,18 @@ def run_virtual(main, *, epoch: int = EPOCH_DEFAULT, read_cost_us: int = 1, late
         loop.max_vt_us = int(horizon_s * 1e6)
     saved = install_shims(loop) if shims else []
     asyncio.set_event_loop(loop)
+
+    def on_alarm(signum, frame):
+        raise HarnessTimeout(f"no progress after {wall_limit_s} s of real time")
+    import signal
+    old_handler = signal.signal(signal.SIGALRM, on_alarm)
+    signal.setitimer(signal.ITIMER_REAL, wall_limit_s, 0.5)   # repeats: a raise inside a GC callback is swallowed
     try:
         result = loop.run_until_complete(main(loop))
         return result, loop
     finally:
+        signal.setitimer(signal.ITIMER_REAL, 0)
+        signal.signal(signal.SIGALRM, old_handler)
         remove_shims(saved)
         try:
             # cancel leftovers so that closing the loop is quiet
